@@ -71,7 +71,21 @@ def big_table(draw):
     """More distinct values than any cap on what is fetched for a column
     (1000, 4000): built, not drawn; the values that sort last are the
     longest / the shortest / of another shape."""
-    n = draw(st.sampled_from([1100, 4200]))
+    n = draw(st.sampled_from([1100, 4200, 620]))
+    if n == 620:
+        # hundreds of differently shaped strings: as many expressions (and
+        # as many REGEXP terms in the verification query)
+        import itertools
+        sigs = [''.join({'C': 'ab', ' ': ' ', '.': '-'}[c] for c in t)
+                for n_ in range(1, 9)
+                for t in itertools.product('C .', repeat=n_)
+                if all(t[i] != t[i + 1] for i in range(n_ - 1))]
+        k = draw(st.sampled_from([501, 620, 733]))
+        cols = [{'name': 'txt', 'kind': 'ostr', 'cells': sigs[:k]}]
+        fr = S.restrict_frame({'n': k, 'cols': cols})
+        for c in fr['cols']:
+            c['decl'] = S.DECLS[c['kind']][0]
+        return fr
     tail = draw(st.sampled_from(['longer', 'shorter', 'other-shape']))
     k = 12
     body = ['k%05d' % i for i in range(n - k)]
